@@ -100,11 +100,26 @@ package fp
 //@ 	v := it.Next()
 //@ 	return Eq(v, verifspec.IterAt[T](r, p0)) && verifspec.IterPos(r) == p0+1 && verifspec.Cell[int](it, "i") == i+1
 //@ }
+//@ func iterTakeDemand[T any](r Iterator[T], n int) bool {
+//@ 	it := r.Take(n)
+//@ 	verifspec.Havoc(it)
+//@ 	i := verifspec.Cell[int](it, "i")
+//@ 	verifspec.Assume(0 <= i && i <= verifspec.IterPos(r))
+//@ 	q0 := verifspec.IterProbes(r)
+//@ 	h := it.HasNext()
+//@ 	if i >= n {
+//@ 		// the count is exhausted: the answer is false and the source is not even asked
+//@ 		return !h && verifspec.IterProbes(r) == q0
+//@ 	}
+//@ 	return verifspec.IterProbes(r) <= q0+1
+//@ }
 //@ end
 //
 //@ lemma iterTake[T any](r Iterator[T], n int, next bool)
 //@   prop C12 C20
 //@   ensures iterTakeStep(r, n, next)
+//@   ensures iterTakeDemand(r, n)
+//@   tag demandBounded
 //
 // TakeWhile: abstract position a = pos-1 when an element is cached in fv,
 // pos otherwise; abstract HasNext = !breaking && a < len && p(E[a]).
